@@ -159,15 +159,28 @@ def ctlSetError (ctl : Ctl) (faults : List Nat) (u : Nat) : Option Ctl × List N
                 else (none, faults)
     | none => (none, faults)
 
-/-- the three list requests of one poll, answered from the controller snapshot `snap`; the
-"missing" request is for the non-final entries of the cache as it is when the first two responses
-have arrived -/
-def pollResult (snap : Ctl) (cur : List (Nat × CEnt)) : List Rec :=
+/-- a record of a list response. `sizing` says whether the request's `Select:` names the sizing
+attributes (runtime_constraints, mounts, container_image, scheduling_parameters); a record of a
+response that did not select them carries the zero-valued constraint vector (`need = 0`), which is
+what `addEnt` would then hand to the type chooser -/
+def project (sizing : Bool) (r : CRec) : Rec :=
+  { uuid := r.uuid, st := r.st, prio := r.prio, need := if sizing then r.need else 0 }
+
+/-- the three list requests of one poll ("locked by me", "Queued with priority > 0", "entries of the
+cache the first two did not return"), answered from the controller snapshot `snap`, each with its
+own `Select:`; the "missing" request is for the non-final entries of the cache as it is when the
+first two responses have arrived -/
+def pollResultSel (selMine selAvail selMissing : Bool) (snap : Ctl) (cur : List (Nat × CEnt)) : List Rec :=
   let mine := snap.filter (fun r => r.mine)
   let avail := snap.filter (fun r => r.st == .queued && decide (0 < r.prio))
-  let have1 := mine ++ avail.filter (fun r => !mine.any (fun m => m.uuid == r.uuid))
+  let avail1 := avail.filter (fun r => !mine.any (fun m => m.uuid == r.uuid))
+  let have1 := mine ++ avail1
   let missing := snap.filter (fun r => !have1.any (fun m => m.uuid == r.uuid) &&
     cur.any (fun p => p.1 == r.uuid && p.2.st != .cancelled && p.2.st != .complete))
-  (have1 ++ missing).map toRec
+  mine.map (project selMine) ++ avail1.map (project selAvail) ++ missing.map (project selMissing)
+
+/-- `poll()` as it is: all three requests use `selectParam`, which names the sizing attributes
+(tie facts `tie_queuePollSelect`) -/
+def pollResult (snap : Ctl) (cur : List (Nat × CEnt)) : List Rec := pollResultSel true true true snap cur
 
 end ArvVerif.C16.Q
